@@ -83,6 +83,10 @@ func AllShapes(idx int) *schema.File {
 		schema.Field{Name: "after", Num: 2047, Kind: "int32"},
 		schema.Field{Name: "other_a", Num: 5, Kind: "int32", Oneof: "second"},
 		schema.Field{Name: "other_b", Num: 6, Kind: "string", Oneof: "second"},
+		// a third oneof: the generator must emit the wrapper types in a fixed order whatever the
+		// number of oneofs (checked by running it several times)
+		schema.Field{Name: "other_c", Num: 7, Kind: "bool", Oneof: "third"},
+		schema.Field{Name: "other_d", Num: 8, Kind: "bytes", Oneof: "third"},
 		schema.Field{Name: "middle", Num: 40, Kind: "bool"},
 	)
 	// Cast: picoconv in every position
@@ -114,6 +118,9 @@ func AllShapes(idx int) *schema.File {
 		{Name: "deep", Num: 5, Kind: "message", Ref: "Nest_Inner_Deep"},
 		{Name: "pick_inner", Num: 6, Kind: "message", Ref: "Nest_Inner", Oneof: "pick"},
 		{Name: "pick_color", Num: 7, Kind: "enum", Ref: "Nest_Color", Oneof: "pick"},
+		// a map field in a message that also has nested declarations: its synthetic entry type
+		// comes first in nested_type, before Inner
+		{Name: "lookup", Num: 8, Kind: "map", MapKey: "string", MapVal: "int32"},
 	}}
 	nestInner := schema.Message{Name: "Nest_Inner", Parent: "Nest", Fields: []schema.Field{
 		{Name: "x", Num: 1, Kind: "sint64"},
@@ -130,7 +137,17 @@ func AllShapes(idx int) *schema.File {
 		{Name: "d", Num: 2, Kind: "message", Ref: "Nest_Inner_Deep", Label: "repeated"},
 		{Name: "col", Num: 3, Kind: "enum", Ref: "Nest_Color"},
 	}}
-	f.Messages = append(f.Messages, plain, opt, rep, one, cast, wide, nest, nestInner, nestDeep, user)
+	// Shape: a oneof member named like a nested message (`circle` / `Circle`): the wrapper type name
+	// Shape_Circle is taken by the nested message, protogen renames the wrapper
+	shape := schema.Message{Name: "Shape", Fields: []schema.Field{
+		{Name: "circle", Num: 1, Kind: "message", Ref: "Shape_Circle", Oneof: "kind"},
+		{Name: "side", Num: 2, Kind: "int32", Oneof: "kind"},
+		{Name: "more", Num: 3, Kind: "message", Ref: "Shape_Circle", Label: "repeated"},
+	}}
+	shapeCircle := schema.Message{Name: "Shape_Circle", Parent: "Shape", Fields: []schema.Field{
+		{Name: "r", Num: 1, Kind: "double"},
+	}}
+	f.Messages = append(f.Messages, plain, opt, rep, one, cast, wide, nest, nestInner, nestDeep, user, shape, shapeCircle)
 	return f
 }
 
